@@ -367,16 +367,24 @@ impl S {
         // Config through the query; a field the query no longer shows is taken from the typed stored Config; if that is not
         // readable either, the ghost's value stands in (the comparison is then vacuous, noted once in `main`)
         let cfg = self.w.query(&self.a(SELF), &json!({"config": {}})).unwrap_or(Value::Null);
-        let stored = {
+        // the stored Config as untyped JSON (no dependence on the struct's field layout: a refactor that moves a field into its own
+        // storage item must not stop this harness from compiling)
+        let stored: Value = {
             let st = self.w.app.contract_storage(&Addr::unchecked(self.a(SELF)));
-            token_merge_minter::state::CONFIG.may_load(&*st).ok().flatten()
+            st.get(token_merge_minter::state::CONFIG.as_slice()).and_then(|b| serde_json::from_slice::<Value>(&b).ok()).unwrap_or(Value::Null)
         };
-        let start = cfg["start_time"].as_str().and_then(|x| x.parse().ok()).or(stored.as_ref().map(|c| c.extension.start_time.nanos()));
-        let limit = cfg["per_address_limit"].as_u64().map(|x| x as u32).or(stored.as_ref().map(|c| c.extension.per_address_limit));
+        let jstart = |v: &Value| v.as_str().and_then(|x| x.parse::<u64>().ok());
+        let start = jstart(&cfg["start_time"]).or(jstart(&stored["extension"]["start_time"]));
+        let limit = cfg["per_address_limit"].as_u64().map(|x| x as u32).or(stored["extension"]["per_address_limit"].as_u64().map(|x| x as u32));
+        let mt = self.w.query(&self.a(SELF), &json!({"mint_tokens": {}})).unwrap_or(Value::Null);
         let req = if cfg["mint_tokens"].is_array() {
             Some(self.pairs(&cfg["mint_tokens"]))
+        } else if mt["mint_tokens"].is_array() {
+            Some(self.pairs(&mt["mint_tokens"]))
+        } else if stored["extension"]["mint_tokens"].is_array() {
+            Some(self.pairs(&stored["extension"]["mint_tokens"]))
         } else {
-            stored.as_ref().map(|c| c.extension.mint_tokens.iter().map(|m| (self.id(&m.collection), m.amount)).collect())
+            None
         };
         let mut s = Snap {
             cfg_readable: start.is_some() && limit.is_some() && req.is_some(),
